@@ -151,6 +151,16 @@ static struct upipe *upipe_rate_limit_alloc(struct upipe_mgr *mgr,
  */
 static void upipe_rate_limit_free(struct upipe *upipe)
 {
+    struct upipe_rate_limit *upipe_rate_limit =
+        upipe_rate_limit_from_upipe(upipe);
+
+    /* forget the blocks sent during the last period */
+    struct uchain *uchain, *uchain_tmp;
+    ulist_delete_foreach(&upipe_rate_limit->sent_blocks, uchain, uchain_tmp) {
+        ulist_delete(uchain);
+        uref_free(uref_from_uchain(uchain));
+    }
+
     upipe_throw_dead(upipe);
     upipe_rate_limit_clean_uclock(upipe);
     upipe_rate_limit_clean_upump(upipe);
